@@ -1,18 +1,16 @@
 """C01 — matrix product.  Proof: lean/FastorModel/Props/C01.lean.  Ties: K2 (real _matmul templates
 over the symbolic carrier vs the Lean model: values, store order, read sets, chosen width), K4 (real
 element types on exact integer data vs a naive triple loop, all ISAs, immediate / lazy / raw)."""
-import os, random, json
-from vlib import core, symrun
+import random
+from vlib import core, symrun, flow
 
 PID = "C01"
 
-def vsize(isa, sz, N):
-    # only used to pick interesting shapes; the authoritative value is printed by the harness
-    lanes = {"scalar": 1, "sse2": 16 // sz, "sse42": 16 // sz, "avx": 32 // sz, "avx2": 32 // sz, "avx512": 64 // sz}[isa]
-    return max(lanes, 1)
+def lanes(isa, sz):
+    return max({"scalar": 1, "sse2": 16 // sz, "sse42": 16 // sz, "avx": 32 // sz, "avx2": 32 // sz, "avx512": 64 // sz}[isa], 1)
 
 def shapes_for(isa, sz, tier, rng):
-    V = vsize(isa, sz, 0)
+    V = lanes(isa, sz)
     Ns = set([1, 2, 3])
     for m in range(1, 7):
         for d in (-1, 0, 1, 2):
@@ -24,7 +22,6 @@ def shapes_for(isa, sz, tier, rng):
     Ks = [1, 2, 3, 5]
     shapes = set()
     if tier == "quick":
-        # boundary part: every N class with a few M covering the row-remainder classes
         for n in sorted(Ns):
             for m in rng.sample(Ms, 3) + [rng.choice([12, 24]), rng.choice([5, 9, 13])]:
                 shapes.add((m, rng.choice(Ks), n))
@@ -47,12 +44,11 @@ def sym_groups(tier, seed):
         for sz in (4, 8):
             calls = ["run_matmul<Sym%d,%d,%d,%d>();" % (sz, m, k, n) for (m, k, n) in shapes_for(isa, sz, tier, rng)]
             groups.append({"key": "%s/sz%d" % (isa, sz), "header": "matmul_sym.h", "isa": isa, "calls": calls})
-    # block-size macros (one at a time); c++17 cell
-    macro_cells = [("avx2", 4, ["-DFASTOR_MATMUL_INNER_BLOCK_SIZE=%d" % b]) for b in ((1, 3) if tier == "quick" else (1, 2, 3, 4))]
+    macro_cells = [("avx2", 4, ["-DFASTOR_MATMUL_INNER_BLOCK_SIZE=%d" % b]) for b in ((1, 3, 5) if tier == "quick" else (1, 2, 3, 4, 5))]
     macro_cells += [("sse2", 8, ["-DFASTOR_MATMUL_OUTER_BLOCK_SIZE=%d" % b]) for b in ((1,) if tier == "quick" else (1, 2, 3, 4, 5))]
     for isa, sz, defs in macro_cells:
-        V = vsize(isa, sz, 0)
-        shp = [(m, k, n) for m in (5, 9, 13, 24) for k in (2, 3) for n in (5 * V + 1, 6 * V + 2, 6 * V + 3, 7 * V)]
+        V = lanes(isa, sz)
+        shp = [(m, k, n) for m in (5, 9, 13, 24) for k in (2, 3) for n in (5 * V + 1, 6 * V + 2, 6 * V + 3, 7 * V, 10 * V, 11 * V + 3)]
         calls = ["run_matmul<Sym%d,%d,%d,%d>();" % (sz, m, k, n) for (m, k, n) in shp]
         groups.append({"key": "%s/sz%d/%s" % (isa, sz, defs[0]), "header": "matmul_sym.h", "isa": isa, "defs": defs, "calls": calls})
     groups.append({"key": "sse2/sz4/c++17-O0", "header": "matmul_sym.h", "isa": "sse2", "std": "c++17", "opt": "-O0",
@@ -75,126 +71,31 @@ def real_groups(tier, seed):
             calls = ["run_real<%s,%d,%d,%d>(%du);" % (t, m, k, n, seed * 131 + i) for i, (m, k, n) in enumerate(sorted(shp))]
             groups.append({"key": "%s/%s" % (isa, t), "header": "matmul_real.h", "isa": isa, "opt": "-O2", "calls": calls,
                            "pre": "static bool g_verbose=false;"})
-    # documented tuning macros on real types
     for b in ((5,) if tier == "quick" else (1, 2, 3, 4, 5)):
         groups.append({"key": "avx2/double/IB%d" % b, "header": "matmul_real.h", "isa": "avx2", "opt": "-O2",
                        "defs": ["-DFASTOR_MATMUL_INNER_BLOCK_SIZE=%d" % b], "pre": "static bool g_verbose=false;",
                        "calls": ["run_real<double,%d,%d,%d>(%du);" % (m, k, n, seed + m) for (m, k, n) in [(8, 3, 23), (5, 2, 21), (12, 3, 44), (9, 4, 26)]]})
     return groups
 
-def report_infra(v, infra):
-    for e in infra:
-        v.violation("harness-failure %s %s" % (e["group"], e["what"]),
-                    {"kind": "harness-failure", "detail": e,
-                     "note": "the harness for this configuration did not compile or crashed; the property is not shown for it"},
-                    nofail=True)
-
-def search_failing_input(v, mism, tier, seed, workdir):
-    """correspondence broke (model and implementation differ structurally) but the oracle agreed on
-    the compared cases: enlarge the box around the disagreeing configurations and ask the oracle."""
-    keys = sorted(set(m["group"] for m in mism))
-    groups = [g for g in sym_groups("thorough", seed + 17) if g["key"] in keys]
-    res = symrun.run_groups(groups, workdir, per_tu=80)
-    n, mm, ofail, infra, _ = symrun.compare_with_model(res, v)
-    return n, ofail
-
 def run(tier, seed):
-    v = core.Verdict(PID, tier, seed)
-    v.assumptions = ["extents and indices do not overflow size_t (N < 2^64 is a hypothesis of the theorem)",
-                     "floating-point rounding bound of the property is not a theorem here: exactness over a commutative semiring is proved, "
-                     "the forward error of float/double runs on non-integer data is outside this check",
-                     "MKL / LIBXSMM back ends are not built"]
-    ok, info = core.proof_stage(v, PID, thorough=(tier == "thorough"))
-    v.cov["proof"] = {k: info.get(k) for k in ("build_ok", "problems", "failed_modules", "errors", "leanchecker", "log")}
-    if not info.get("build_ok"):
-        v.violation("lean-build-failed " + ",".join(info.get("failed_modules", [])),
-                    {"kind": "proof-obligation", "detail": info,
-                     "note": "lake build failed, so neither the theorems nor the driver can be used; no correspondence was run"}, nofail=True)
-        return v.finish()
-    with core.Scratch() as wd:
-        sg = sym_groups(tier, seed)
-        res = symrun.run_groups(sg, wd, per_tu=40)
-        n, mism, ofail, infra, lines = symrun.compare_with_model(res, v)
-        rg = real_groups(tier, seed)
-        rres = symrun.run_groups(rg, wd, per_tu=40)
-        real_n = 0; real_fail = []
-        rinfra = []
-        for r in rres:
-            rr = r["res"]
-            if rr["rc_compile"] != 0 or rr["rc_run"] != 0:
-                rinfra.append({"group": r["group"]["key"], "what": "compile" if rr["rc_compile"] else "run rc=%s" % rr["rc_run"],
-                               "calls": r["calls"][:3], "out": (rr["compile_out"][-2000:] if rr["rc_compile"] else rr.get("err", ""))})
-            for line in rr["out"].split("\n"):
-                if "|" in line:
-                    real_n += 1
-                    if not line.split("|", 1)[1].strip().startswith("ok"):
-                        real_fail.append((r["group"], line))
-        # verdicts
-        report_infra(v, infra + rinfra)
-        for f in ofail:
-            v.violation("sym " + f["input"], {"kind": "sym-oracle", "group": f["group"], "input": f["input"], "impl": f["impl"],
-                                               "model": f["model"], "replay": "./check C01 --replay <this file>"})
-        for g, line in real_fail:
-            v.violation("real " + line.split("|")[0].strip(), {"kind": "real-oracle", "group": g["key"], "isa": g["isa"], "defs": list(g.get("defs", ())),
-                                                                  "line": line, "call": None})
-        if mism and not ofail:
-            nn, of2 = search_failing_input(v, mism, tier, seed, wd)
-            v.cov["search_evaluations"] = nn
-            if of2:
-                for f in of2[:5]:
-                    v.violation("sym " + f["input"], {"kind": "sym-oracle", "group": f["group"], "input": f["input"], "impl": f["impl"], "model": f["model"]})
-            else:
-                m0 = mism[0]
-                v.violation("correspondence " + m0["input"] + " fields=" + ",".join(m0["fields"]),
-                            {"kind": "correspondence", "broken": "model FastorModel.Model.Matmul (theorem Fastor.C01.matmul_exact is about this model) no longer "
-                             "describes the code: store order / read sets / width differ", "first": m0, "count": len(mism),
-                             "searched": nn}, nofail=True)
-        if not ok and info.get("build_ok"):
-            v.violation("audit " + "; ".join(info.get("problems", []))[:200], {"kind": "audit", "detail": info.get("problems")}, nofail=True)
-    routes = {}
-    for inp, obs, mo in lines:
-        r = symrun.kv(mo).get("route", "?")
-        routes[r] = routes.get(r, 0) + 1
-    nontrivial = len(set(inp for inp, obs, mo in lines if symrun.kv(mo).get("route") not in ("tiny", "nonprim")))
-    v.cov.update({"evaluations": n + real_n, "distinct_nontrivial": nontrivial,
-                  "rule": "symbolic cases: (cfg, sizeof T, M, K, N) instantiations of the real _matmul template over the free-commutative-ring carrier, "
-                          "compared with the Lean model on values, ordered store positions, read sets and vector width; non-trivial = dispatches to a "
-                          "vectorised kernel (base/basemasked/smalln/matvec). real cases: 6 element types x ISAs on integer data vs naive loop",
-                  "samples": [{"input": l[0], "impl": l[1], "model": l[2]} for l in lines[:3]] + [l for _, l in real_fail[:2]],
-                  "route_hits": routes, "sym_cases": n, "real_cases": real_n, "mismatches": len(mism), "oracle_failures": len(ofail) + len(real_fail),
-                  "configs": sorted(set(g["key"] for g in sg))})
-    return v.finish()
+    return flow.standard_run(
+        PID, tier, seed, "Fastor.C01.matmul_exact", "FastorModel.Model.Matmul", sym_groups, real_groups,
+        assumptions=["extents and indices do not overflow size_t (N < 2^64 is a hypothesis of the theorem)",
+                     "the floating-point rounding bound of the property is not a theorem here: exactness over a commutative semiring is proved; "
+                     "float/double/complex runs use integer-valued data so that every intermediate is exact",
+                     "MKL / LIBXSMM back ends are not built"],
+        rule="symbolic cases: (cfg, sizeof T, M, K, N) instantiations of the real _matmul template over the free-commutative-ring carrier, compared "
+             "with the Lean model on values, ordered store positions, read sets and vector width; non-trivial = dispatches to a vectorised kernel "
+             "(base/basemasked/smalln/matvec). oracle cases: 6 element types x ISAs on integer data vs naive loop (immediate, lazy, raw + sentinels)",
+        nontrivial=lambda inp, mo: symrun.kv(mo).get("route") not in ("tiny", "nonprim"))
+
+def sym_call_of(inp):
+    d = symrun.kv(inp)
+    defs = []
+    if "ob" in d: defs.append("-DFASTOR_MATMUL_OUTER_BLOCK_SIZE=" + d["ob"])
+    if "ib" in d: defs.append("-DFASTOR_MATMUL_INNER_BLOCK_SIZE=" + d["ib"])
+    return {"key": "replay", "header": "matmul_sym.h", "isa": d["cfg"], "defs": defs,
+            "calls": ["run_matmul<Sym%s,%s,%s,%s>();" % (d["sz"], d["M"], d["K"], d["N"])]}
 
 def replay(path):
-    obj = json.load(open(path))
-    print(json.dumps(obj, indent=1)[:4000])
-    kind = obj.get("kind")
-    with core.Scratch() as wd:
-        if kind in ("sym-oracle", "correspondence"):
-            first = obj if kind == "sym-oracle" else obj["first"]
-            d = symrun.kv(first["input"])
-            defs = []
-            if "ob" in d: defs.append("-DFASTOR_MATMUL_OUTER_BLOCK_SIZE=" + d["ob"])
-            if "ib" in d: defs.append("-DFASTOR_MATMUL_INNER_BLOCK_SIZE=" + d["ib"])
-            g = {"key": "replay", "header": "matmul_sym.h", "isa": d["cfg"], "defs": defs,
-                 "calls": ["run_matmul<Sym%s,%s,%s,%s>();" % (d["sz"], d["M"], d["K"], d["N"])]}
-            res = symrun.run_groups([g], wd, verbose=True)
-            for r in res:
-                print(r["res"]["compile_out"][-2000:] if r["res"]["rc_compile"] else r["res"]["out"])
-            n, mism, ofail, infra, lines = symrun.compare_with_model(res, None)
-            for l in lines: print("model:", l[2])
-            return 1 if (mism or ofail or infra) else 0
-        if kind == "real-oracle":
-            line = obj["line"]; d = symrun.kv(line.split("|")[0])
-            tmap = {"float": "float", "double": "double", "int32": "int32_t", "int64": "int64_t", "cfloat": "std::complex<float>", "cdouble": "std::complex<double>"}
-            calls = ["run_real<%s,%s,%s,%s>(%du);" % (tmap[d["T"]], d["M"], d["K"], d["N"], s) for s in range(1, 6)]
-            g = {"key": "replay", "header": "matmul_real.h", "isa": obj["isa"], "defs": obj.get("defs", []), "opt": "-O2", "calls": calls,
-                 "pre": "static bool g_verbose=false;"}
-            res = symrun.run_groups([g], wd)
-            bad = False
-            for r in res:
-                out = r["res"]["compile_out"][-2000:] if r["res"]["rc_compile"] else r["res"]["out"]
-                print(out); bad = bad or "FAIL" in out or r["res"]["rc_compile"] != 0
-            return 1 if bad else 0
-    print("replay: nothing executable in this replay file (kind=%s)" % kind)
-    return 1
+    return flow.standard_replay(path, sym_call_of)
